@@ -150,6 +150,16 @@ func Explore(P *Program, cfg *HarnessCfg) (*ExploreResult, error) {
 			}
 		}()
 	}
+	if os.Getenv("GOSYM_PROGRESS") != "" {
+		go func() {
+			for {
+				time.Sleep(5 * time.Second)
+				ex.mu.Lock()
+				fmt.Fprintf(os.Stderr, "progress: done=%d queue=%d active=%d queries=%d hung=%d\n", len(ex.results), len(ex.queue), ex.active, gQueries, gSolverHung)
+				ex.mu.Unlock()
+			}
+		}()
+	}
 	wg.Wait()
 	select {
 	case e := <-errs:
@@ -270,7 +280,16 @@ func panicKey(tp *targetPanic) string {
 	if i := strings.Index(site, "@"); i >= 0 {
 		site = site[:i]
 	}
-	return site + ":" + tp.kind
+	k := site + ":" + tp.kind
+	if tp.src != "" {
+		// the source text of the faulting line identifies the site without line numbers
+		h := uint32(2166136261)
+		for i := 0; i < len(tp.src); i++ {
+			h = (h ^ uint32(tp.src[i])) * 16777619
+		}
+		k += fmt.Sprintf(":%08x", h)
+	}
+	return k
 }
 
 func (in *Interp) panicMessage(tp *targetPanic) string {
@@ -312,7 +331,9 @@ func (in *Interp) runInits() {
 func (in *Interp) confirmModel(maxLen uint64) (map[string]interface{}, bool) {
 	var lens []InputVar
 	for _, iv := range in.path.inputs {
-		if iv.Kind == "str" {
+		if iv.Kind == "str" && iv.T.Declared() {
+			// only strings whose content the path actually constrained need the tie
+			in.tt.Ref(iv.L)
 			lens = append(lens, iv)
 		}
 	}
@@ -378,32 +399,105 @@ func (in *Interp) confirmModel(maxLen uint64) (map[string]interface{}, bool) {
 func (in *Interp) extractModel() (map[string]interface{}, bool) {
 	m := map[string]interface{}{}
 	var exprs []string
-	var vars []InputVar
+	var vars []*Term
+	idx := map[*Term]int{}
+	want := func(t *Term) {
+		if t != nil && t.Declared() {
+			if _, ok := idx[t]; !ok {
+				idx[t] = len(vars)
+				vars = append(vars, t)
+				exprs = append(exprs, in.tt.Ref(t))
+			}
+		}
+	}
 	for _, iv := range in.path.inputs {
-		vars = append(vars, iv)
-		exprs = append(exprs, in.tt.Ref(iv.T))
+		want(iv.T)
+		want(iv.L)
+		if iv.Kind == "str" {
+			for _, b := range in.tt.byteVars[iv.T] {
+				want(b)
+			}
+		}
 	}
 	in.flush()
 	vals, ok := in.sol.GetValue(exprs)
 	if !ok {
 		return nil, false
 	}
-	for i, iv := range vars {
+	for _, iv := range in.path.inputs {
+		if !iv.T.Declared() {
+			// never referenced by the path condition: any value will do
+			switch iv.Kind {
+			case "bool":
+				m[iv.Name] = false
+			case "str":
+				n := uint64(0)
+				if iv.L != nil && iv.L.Declared() {
+					n, _ = parseBVValue(vals[idx[iv.L]])
+				}
+				if n > 70000 {
+					return nil, false
+				}
+				buf := make([]byte, n)
+				for i, b := range in.tt.byteVars[iv.T] {
+					if b.Declared() && uint64(i) < n {
+						x, _ := parseBVValue(vals[idx[b]])
+						buf[i] = byte(x)
+					}
+				}
+				m[iv.Name] = "b64:" + base64.StdEncoding.EncodeToString(buf)
+			default:
+				m[iv.Name] = "0"
+			}
+			continue
+		}
+		v := vals[idx[iv.T]]
 		switch iv.Kind {
 		case "bool":
-			m[iv.Name] = strings.TrimSpace(vals[i]) == "true"
+			m[iv.Name] = strings.TrimSpace(v) == "true"
 		case "str":
-			b, ok := parseSeqValue(vals[i])
+			b, ok := parseSeqValue(v)
 			if !ok {
 				return nil, false
 			}
 			m[iv.Name] = "b64:" + base64.StdEncoding.EncodeToString(b)
 		default:
-			v, ok := parseBVValue(vals[i])
+			x, ok := parseBVValue(v)
 			if !ok {
 				return nil, false
 			}
-			m[iv.Name] = fmt.Sprintf("%d", v)
+			m[iv.Name] = fmt.Sprintf("%d", x)
+		}
+	}
+	// the content of a constructed node is the concatenation of its children's
+	// encodings; the model treats it as free bytes.  A path that read such
+	// content cannot be reproduced from the tree alone: flag it.
+	for _, n := range in.symNode {
+		used := n.data.p[0].t.Declared() || len(in.tt.byteVars[n.data.p[0].t]) > 0
+		if used && m[n.name+".type"] == "32" && m[n.name+".n"] != "0" {
+			m["__incomparable"] = "content of constructed node " + n.name + " was read"
+		}
+	}
+	// the filter node handed to ldap.DecompileFilter (a stub here): natively it
+	// must decompile (or not) as the path assumed
+	for seq, p := range in.filterNode {
+		n := in.symNode[p]
+		if n == nil {
+			continue
+		}
+		if m[fmt.Sprintf("filter%d.ok", seq)] == true {
+			m[n.name+".class"], m[n.name+".type"], m[n.name+".tag"], m[n.name+".n"] = "128", "0", "7", "0"
+			m[n.name+".data"] = "b64:" + base64.StdEncoding.EncodeToString([]byte("objectClass"))
+		}
+	}
+	// content that the code re-decoded with ber.DecodePacketErr: natively the
+	// decoded tree must come from those very bytes, so the content is replaced
+	// by the encoding of the modelled tree
+	for _, d := range in.decoded {
+		if len(d.src.p) == 1 && d.src.p[0].k == pkAtom && d.src.p[0].t.op == "var" {
+			if okv, has := m[d.node.root+".ok"]; has && okv == true {
+				m[d.src.p[0].t.name] = "enc:" + d.node.root
+			}
 		}
 	}
 	return m, true
